@@ -86,6 +86,9 @@ def distinct_add_fn(P):
 
 
 def run(R):
+    # DISTINCT keeps a hash set of value tuples: "same tuple" is Value's Eq, found through Value's Hash - the two must agree
+    from . import rules_c16
+    rules_c16.float_key_agreement(R, "C08.keys")
     P = R.prog
     global ADD
     _af = distinct_add_fn(P)
